@@ -548,45 +548,41 @@ def rule_r7(prog, res) -> None:
 
 
 def rule_r8(prog, res) -> None:
-    """given patch centres take precedence over a patch-id column"""
-    from ..cfg import cfg_of as _cfg
-    from .common import pruned_reach, single_def_resolver
+    """given patch centres take precedence over a patch-id column (decided on the substituted
+    group key of every path of split_into_patches on which centres are given)"""
+    from .. import symx
 
     sip = prog.func("split_into_patches")
     res.touch(sip)
-    fn = sip.node
-    cfg = _cfg(fn)
     cen = sip.param_names()[1]
-    gb = [n for n in cfg.nodes if any(t.name == "groupby" for c in n.calls() for t in prog.resolve_call(sip, c).funcs())]
-    if not gb:
-        raise AnalysisError("C02.R8: groupby call vanished from split_into_patches")
-    call = next(c for c in gb[0].calls() if any(t.name == "groupby" for t in prog.resolve_call(sip, c).funcs()))
-    key = call.args[0]
-    if not isinstance(key, ast.Name):
-        raise AnalysisError("C02.R8: group key is not a plain name")
-    defs = [n for n in cfg.nodes if n.kind == "stmt" and isinstance(n.ast, ast.Assign) and key.id in [x.id for t in n.ast.targets for x in ast.walk(t) if isinstance(x, ast.Name)]]
-    from_centres = [n for n in defs if any(t.name == "assign_patch_centers" for c in n.calls() for t in prog.resolve_call(sip, c).funcs())]
-    from_column = [n for n in defs if n not in from_centres]
+    pol = symx.inline_private_helpers(prog, public={"assign_patch_centers", "groupby"})
+    n_paths = 0
     for has_ids in (True, False):
-        env = {cen: "SOME", "has_patch_ids": has_ids, "hasattr()": has_ids}
-        reach = pruned_reach(cfg, cfg.entry, env, defs=None)
-        bad = [n for n in from_column if n.id in reach]
-        # a column definition may be overwritten by the centre assignment later on the same path
-        bad = [n for n in bad if gb[0].id in pruned_reach(cfg, n, env, avoid=lambda x: x in from_centres)]
-        if bad:
-            res.violation(
-                "C02.R8",
-                sip,
-                bad[0].ast,
-                f"with patch centres given (and a patch-id column {'present' if has_ids else 'absent'}) the records are grouped by `{norm_stmt(bad[0].ast)[:60]}` instead of by their nearest centre: "
-                "the documented precedence patch_centers > patch_name is reversed and records land in patches whose stored centre is not their nearest one",
-                key_extra="centres-precedence",
-            )
-            return
-    if not from_centres:
-        res.violation("C02.R8", sip, fn, "patch ids are never derived from the given centres", key_extra="centres-unused")
-        return
-    res.ok("C02.R8", res.site(sip), "whenever centres are given, the group key is the nearest-centre assignment (also when an id column exists)")
+        paths = symx.explore(prog, sip, env={cen: "SOME", "hasattr()": has_ids}, inline=pol)
+        for p in paths:
+            gb = [e for e in p.calls() if any(t.name == "groupby" for t in prog.resolve_call(e.fi, e.node).funcs())]
+            if p.outcome == "raise":
+                continue
+            if not gb:
+                res.violation("C02.R8", sip, p.node or sip.node, "a path with patch centres given returns without grouping the records by patch", key_extra="no-groupby")
+                return
+            n_paths += 1
+            for e in gb:
+                key = e.expr.args[0] if e.expr.args else None
+                apc = [c for c in symx.calls_named(key, "assign_patch_centers") if c.args and symx.mentions(c.args[0], lambda n: isinstance(n, ast.Name) and n.id == cen)]
+                if not apc:
+                    res.violation(
+                        "C02.R8",
+                        sip,
+                        e.node,
+                        f"with patch centres given (and a patch-id column {'present' if has_ids else 'absent'}) the records are grouped by `{unparse(key)[:70]}` instead of by their nearest centre: "
+                        "the documented precedence patch_centers > patch_name is reversed and records land in patches whose stored centre is not their nearest one",
+                        key_extra="centres-precedence",
+                    )
+                    return
+    if n_paths < 2:
+        raise AnalysisError("C02.R8: fewer than two grouping paths with centres found in split_into_patches")
+    res.ok("C02.R8", res.site(sip), f"on all {n_paths} paths with centres given, the group key is assign_patch_centers({cen}, …) (also when an id column exists)")
 
 
 RULES = [
